@@ -13,4 +13,5 @@ import DafRel.Props.C14
 #print axioms DafRel.Props.C14.sql_conform_wellformed
 #print axioms DafRel.Props.C14.sql_history_trees_wellformed
 #print axioms DafRel.Props.C14.apply_with_options_wellformed
+#print axioms DafRel.Props.C14.join_with_backtracking_wellformed
 #print axioms DafRel.Props.C14.processed_trees_wellformed
